@@ -443,10 +443,27 @@ fn check_for_string(src: &str) -> Option<(TokenKind, usize)>
 	if !walker.consume_char('\"')
 		{ return None; }
 		
-	walker.consume_until_char('\"');
-		
-	if !walker.consume_char('\"')
-		{ return None; }
+	// Scan for the closing quote, stepping over escape
+	// sequences so that `\"` does not end the string
+	loop
+	{
+		if walker.ended()
+			{ return None; }
+
+		if walker.consume_char('\\')
+		{
+			if walker.ended()
+				{ return None; }
+
+			walker.advance();
+			continue;
+		}
+
+		if walker.consume_char('\"')
+			{ break; }
+
+		walker.advance();
+	}
 		
 	Some((TokenKind::String, walker.length))
 }
